@@ -38,6 +38,8 @@ type Engine struct {
 	pureIfaceMethods map[string]bool
 	guarded     map[string]string // heap name -> mutex heap path (see locks.go)
 	bitsUsed    map[[2]int]bool
+	locks       map[string]*lockSpec
+	guardedBy   map[string]*lockSpec
 	immutable   map[string]bool // heap names of fields that are only written at construction
 	nonNilMaps  map[string]bool // typeName of map types with non-nil values
 	repo        string
@@ -95,6 +97,9 @@ func loadEngine(repo string) (*Engine, error) {
 		return nil, err
 	}
 	eng.cf = cf
+	if err := eng.initLocks(); err != nil {
+		return nil, err
+	}
 	eng.nonNilMaps = map[string]bool{}
 	for _, ts := range cf.NonNilMaps {
 		if t := eng.parseType(ts); t != nil {
@@ -331,9 +336,11 @@ func (e *Engine) staticLoc(v ssa.Value) *Loc {
 		st := structOf(pt.Elem())
 		f := st.Field(x.Field)
 		var base *Loc
-		switch x.X.(type) {
+		switch bx := x.X.(type) {
 		case *ssa.FieldAddr, *ssa.IndexAddr:
 			base = e.staticLoc(x.X)
+		case *ssa.Global:
+			base = &Loc{kind: locGlobal, root: "G$" + e.globalName(bx), typ: pt.Elem()}
 		}
 		if base == nil {
 			base = &Loc{kind: locField, root: e.fieldRoot(pt.Elem()), typ: pt.Elem()}
@@ -570,6 +577,14 @@ func (e *Engine) externalWS(f *ssa.Function, c *ssa.CallCommon, ws *writeSet) bo
 	case "(*sync.Cond).Broadcast", "(*sync.Cond).Signal":
 		ws.heaps["CV$signalled"] = arrSort(sBool)
 		return true
+	case "(*sync.Cond).Wait":
+		// releases and re-acquires: every guarded field may change
+		for h, s := range e.heapSorts {
+			if e.guardedBy[h] != nil {
+				ws.heaps[h] = s
+			}
+		}
+		return true
 	case "sync/atomic.AddUint64", "sync/atomic.AddInt64", "sync/atomic.StoreUint64", "sync/atomic.AddUint32":
 		// writes the pointed-to counter
 		if c != nil && len(c.Args) > 0 {
@@ -625,6 +640,16 @@ func (e *Engine) externalModel(f *ssa.Function) extModel {
 	case "sync/atomic.LoadUint64", "sync/atomic.LoadInt64":
 		return func(fr *Frame, site ssa.Instruction, args []*Val, res *types.Tuple) *Val {
 			return resultVal(fr, res, "atomicload")
+		}
+	case "(*sync.Cond).Wait":
+		return func(fr *Frame, site ssa.Instruction, args []*Val, res *types.Tuple) *Val {
+			fr.eng.condWait(fr)
+			return nil
+		}
+	case "(*sync.Cond).Broadcast", "(*sync.Cond).Signal":
+		return func(fr *Frame, site ssa.Instruction, args []*Val, res *types.Tuple) *Val {
+			fr.eng.condSignal(fr, args[0])
+			return nil
 		}
 	case "(*sync.Mutex).Lock", "(*sync.RWMutex).Lock", "(*sync.RWMutex).RLock":
 		return func(fr *Frame, site ssa.Instruction, args []*Val, res *types.Tuple) *Val {
@@ -686,6 +711,9 @@ func (e *Engine) immutabilityObligations() *VC {
 					break
 				}
 				_, fresh := root.(*ssa.Alloc)
+				if _, isGlobal := root.(*ssa.Global); isGlobal {
+					continue // fields of a package-level struct variable live in their own heap
+				}
 				for _, leaf := range leafLocs(l) {
 					if e.immutable[leaf.heapName()] && !fresh {
 						bad[leaf.heapName()] = append(bad[leaf.heapName()], fmt.Sprintf("%s (%s)", e.keyOf(f), e.fset.Position(st.Pos())))
